@@ -516,11 +516,12 @@ impl MorselAggregateExec {
         if kmin > kmax {
             return Ok(None);
         }
-        let width_u = (kmax as i128 - kmin as i128 + 1) as u64;
-        if width_u > 64_000_000 {
+        // i128: a key domain spanning most of i64 does not fit u64 once +1 is added
+        let width_i = kmax as i128 - kmin as i128 + 1;
+        if width_i > 64_000_000 {
             return Ok(None);
         }
-        let width = width_u as usize;
+        let width = width_i as usize;
 
         // Shared atomic accumulator arrays (zeroed lazily by the allocator)
         let presence: Vec<AtomicU64> = (0..width.div_ceil(64)).map(|_| AtomicU64::new(0)).collect();
